@@ -29,7 +29,7 @@ From Coq Require Import Sorting.Sorted.
 From SG Require Import Base.Prelude C20.SeqIdGen C20.SeqId C20.SeqIdOrder C20.SeqIdCodec.
 From SG Require Import C01.ChanCache C01.ChanCacheLists C01.ChanCacheTruth C01.ChanCacheInv C01.ChanCacheStep C01.ChanCacheRead.
 From SG Require Import C01.Merge C01.MergeProofs C01.Visible C01.VisiblePaging.
-From SG Require Import C01.VisibleTok C01.VisibleResume C01.ChangesFeed C01.ChangesFeedProofs C01.MergePrefix.
+From SG Require Import C01.VisibleTok C01.VisibleResume C01.ChangesFeed C01.ChangesFeedProofs C01.MergePrefix C01.Notify.
 Open Scope N_scope.
 
 (* ---------- layer 1: the per-channel cache ---------- *)
@@ -427,6 +427,28 @@ Theorem C01_changes_end_to_end_paginated : forall hist caches user user_doc user
   = expected_tok hist user user_doc user_seq req since limit false hi low.
 Proof. exact changes_end_to_end_paginated. Qed.
 Print Assumptions C01_changes_end_to_end_paginated.
+
+(* ---------- wake-up: which channels AddToCache reports as changed ---------- *)
+(* every channel the entry concerns (the document is in it, or leaves it at this very sequence) and
+   the wildcard channel, nothing else -- whether or not a per-channel cache exists for them.  The
+   listeners of exactly these ids are notified; the wait loop itself is not modelled (harness stream
+   "wakeup": parked continuous / long-poll feeds on bypassed and evicted channels). *)
+Theorem C01_notified_channels_complete : forall active seq chs c,
+  In c (fst (add_to_cache_all active seq chs)) <->
+  c = nstar \/ exists r, In (c, r) chs /\ (r = None \/ r = Some seq).
+Proof. exact notified_channels_complete. Qed.
+Print Assumptions C01_notified_channels_complete.
+
+Theorem C01_notified_independent_of_caches : forall a1 a2 seq chs,
+  fst (add_to_cache_all a1 seq chs) = fst (add_to_cache_all a2 seq chs).
+Proof. exact notified_independent_of_caches. Qed.
+Print Assumptions C01_notified_independent_of_caches.
+
+Theorem C01_cache_adds_are_notified : forall active seq chs c,
+  (exists rm, In (c, rm) (snd (add_to_cache_all active seq chs))) <->
+  In c active /\ In c (fst (add_to_cache_all active seq chs)).
+Proof. exact cache_adds_are_notified. Qed.
+Print Assumptions C01_cache_adds_are_notified.
 
 (* ---------- non-vacuity ---------- *)
 Example C01_nonvacuous :
